@@ -198,3 +198,32 @@ def net(p):
         inner = net(p.paint)
         return (mul(ot_transform(p), inner[0]), inner[1])
     return (ID, p)
+
+
+# ---------------------------------------------------------------------------- ghost UFO
+
+
+class GhostGlyph:
+    def __init__(self, name):
+        self.name = name
+        self.unicodes = []
+        self.width = 0
+
+
+class GhostInfo:
+    pass
+
+
+class GhostUfo:
+    """stand-in for ufoLib2.Font: font info attributes, lib dict, glyph order, glyphs"""
+
+    def __init__(self):
+        self.info = GhostInfo()
+        self.lib = {}
+        self.glyphOrder = []
+        self.glyphs = {}
+
+    def newGlyph(self, name):
+        g = GhostGlyph(name)
+        self.glyphs[name] = g
+        return g
